@@ -25,6 +25,7 @@ type c19Case struct {
 	Prins          []string
 	PrinsNil       bool
 	TransID        string
+	Nulls          []string `json:",omitempty"` // KeyID members written as JSON null (present, so "required" holds; they decode as zero values)
 }
 
 var c19TypeNames = map[string]string{
@@ -33,10 +34,36 @@ var c19TypeNames = map[string]string{
 }
 
 // c19Expect is the decision table written from the property statement. It returns the expected type name ("" = unknown).
+// c19Effective: what a KeyID text with null members decodes to (null leaves the zero value).
+func c19Effective(k c19Case) c19Case {
+	for _, f := range k.Nulls {
+		switch f {
+		case "isFirefighter":
+			k.FF = false
+		case "isHWKey":
+			k.HW = false
+		case "isHeadless":
+			k.HL = false
+		case "isNonce":
+			k.NC = false
+		case "touchPolicy":
+			k.Touch = 0
+		case "ver":
+			k.Ver = 0
+		case "transID":
+			k.TransID = ""
+		case "usage":
+			k.Usage = 0
+		}
+	}
+	return k
+}
+
 func c19Expect(k c19Case) string {
 	if k.NilCert || k.Raw != nil {
 		return ""
 	}
+	k = c19Effective(k)
 	// decodes? version supported and attributes consistent (the C05 rules), all required fields present by construction
 	if k.Ver != 1 {
 		return ""
@@ -77,6 +104,9 @@ func c19KeyIDText(k c19Case) string {
 		"prins": []string{"alice"}, "transID": k.TransID, "reqUser": "u", "reqIP": "1.2.3.4", "reqHost": "h",
 		"isFirefighter": k.FF, "isHWKey": k.HW, "isHeadless": k.HL, "isNonce": k.NC,
 		"usage": k.Usage, "touchPolicy": k.Touch, "ver": k.Ver,
+	}
+	for _, f := range k.Nulls {
+		m[f] = nil
 	}
 	b, _ := json.Marshal(m)
 	return string(b)
@@ -145,7 +175,7 @@ func c19Run(c *ev.Ctx, k c19Case) {
 		}
 		return
 	}
-	if wl := wantName + "SSH-" + k.TransID; lerr != nil || label != wl {
+	if wl := wantName + "SSH-" + c19Effective(k).TransID; lerr != nil || label != wl {
 		c.Violation("C19:label:"+want, fmt.Sprintf("label %q err=%v, want %q", label, lerr, wl), k)
 	}
 	// suffix table
@@ -181,7 +211,7 @@ func orUnknown(s string) string {
 }
 
 func checkC19(c *ev.Ctx) {
-	c.Rule("complete product: 4 flags x touchPolicy{-1,0,1,2,3,4,7} x usage{0,1} x ver{0,1,2} x critical option{absent,nil map,empty,set,other keys} x principal lists{nil,[],[a],[a,b],['']} x transID{'',hex,utf8}, plus undecodable KeyID catalogue and the nil certificate; each compared with a decision table written from the statement. non-trivial = decodable KeyID selecting a known type; distinct by (flags,touch,critical option)")
+	c.Rule("complete product: 4 flags x touchPolicy{-1,0,1,2,3,4,7} x usage{0,1} x ver{0,1,2} x critical option{absent,nil map,empty,set,other keys} x principal lists{nil,[],[a],[a,b],['']} x transID{'',hex,utf8}, plus undecodable KeyID catalogue, the nil certificate, and KeyIDs with one or two null-valued members (36 null sets x 7 bases) each classified right after each of 8 predecessors; each compared with a decision table written from the statement. non-trivial = decodable KeyID selecting a known type; distinct by (flags,touch,critical option)")
 	c.Assume("KeyID texts are built by the harness with encoding/json from a map, so 'decodes' is known by construction", "cert types are compared through their public label table")
 	if c.ReplayCase != nil {
 		var k c19Case
@@ -235,6 +265,43 @@ func checkC19(c *ev.Ctx) {
 		}
 	}
 	c19Run(c, c19Case{NilCert: true, Prins: []string{"a"}})
+	// null-valued members (legal JSON, the member is present): every single null and every pair of nulls over a base of
+	// each type, each one classified right after every predecessor of a representative set, so that a value inherited from
+	// the previous certificate (pooled or cached decode state) changes the answer
+	{
+		preds := []c19Case{
+			{Touch: 1, Ver: 1, Crit: "absent", TransID: "aaaa", Prins: []string{"a"}},                                   // touchless
+			{Touch: 3, Ver: 1, Crit: "absent", TransID: "bbbb", Prins: []string{"a"}},                                   // touch sudo
+			{Touch: 1, Ver: 1, Crit: "set", TransID: "cccc", Prins: []string{"a"}},                                      // touchless sudo
+			{FF: true, HW: true, Touch: 3, Ver: 1, Crit: "absent", TransID: "dddd", Prins: []string{"a"}},               // firefighter
+			{FF: true, Touch: 1, Ver: 1, Crit: "set", TransID: "eeee", Prins: []string{"a"}},                            // sudo in agent
+			{NC: true, Touch: 1, Ver: 1, Crit: "absent", TransID: "ffff", Prins: []string{"a"}},                         // nonce
+			{HL: true, Touch: 1, Usage: 1, Ver: 1, Crit: "absent", TransID: "0000", Prins: []string{"a"}},               // headless touchless
+			{Touch: 7, Ver: 2, Crit: "absent", TransID: "1111", Prins: []string{"a"}},                                   // undecodable (version)
+		}
+		members := []string{"isFirefighter", "isHWKey", "isHeadless", "isNonce", "touchPolicy", "ver", "transID", "usage"}
+		var nullSets [][]string
+		for i, a := range members {
+			nullSets = append(nullSets, []string{a})
+			for _, b := range members[i+1:] {
+				nullSets = append(nullSets, []string{a, b})
+			}
+		}
+		nn := 0
+		for _, base := range preds[:7] {
+			for _, ns := range nullSets {
+				for _, pred := range preds {
+					k := base
+					k.Nulls = ns
+					c19Run(c, pred)
+					c19Run(c, k)
+					nn++
+				}
+			}
+		}
+		c.Set("null_member_cases_after_each_predecessor", nn)
+		c.Sample(c19Case{Touch: 3, HW: true, Ver: 1, Crit: "absent", TransID: "t", Prins: []string{"a"}, Nulls: []string{"touchPolicy"}})
+	}
 	// second pass in a stride order: the function must not depend on what it was asked before (caches, pooled objects)
 	for i := 0; i < len(all); i++ {
 		c19Run(c, all[(i*7919)%len(all)])
